@@ -68,3 +68,27 @@ Example C12_tables_witness : length primitive_types = 14 /\ lookup "guid" fixed_
 Proof. repeat split. Qed.
 
 Print Assumptions C12_tables.
+
+(* Map keys.  The generator has key readers and writers for primitive types only.  (a) For EVERY input, whatever File the parser
+   model returns has only primitive map keys, at every depth of every field type of every struct, message and union branch
+   (front/ParseTypeWf.v, a postcondition through the parser's monadic code).  (b) The parser model's notion of "primitive"
+   (Parse.is_primitive, hand-written) is exactly the source's primitiveTypes table as translator T2 regenerates it. *)
+Require Import Bebop.front.Tok Bebop.front.Parse Bebop.front.ParseWf Bebop.front.ParseTypeWf.
+From Coq Require Import Ascii NArith.
+Definition bytes_of_string (s : string) : list N := map (fun a => N.of_nat (nat_of_ascii a)) (list_ascii_of_string s).
+Definition C12_keys_statement : Prop :=
+  (forall input fails f s, read_file input fails = POk f s -> file_twf f) /\
+  (forall p, In p primitive_types -> is_primitive (bytes_of_string p) = true) /\
+  (forall b, is_primitive b = true -> In b (map bytes_of_string primitive_types)).
+Theorem C12_keys : C12_keys_statement.
+Proof.
+  split; [exact read_file_twf|]. split.
+  - apply forallb_forall. vm_compute. reflexivity.
+  - intros b H.
+    assert (E : existsb (fun p => beq p b) (map bytes_of_string primitive_types) = true).
+    { revert H. unfold is_primitive, is_uint_prim, is_int_prim, is_float_prim, beq.
+      repeat match goal with |- context [list_eq_dec N.eq_dec b ?w] => destruct (list_eq_dec N.eq_dec b w) as [->|_]; [intros _; vm_compute; reflexivity|] end.
+      cbn. discriminate. }
+    apply existsb_exists in E. destruct E as (p & Hin & Ep). unfold beq in Ep. destruct (list_eq_dec N.eq_dec p b); [subst; exact Hin|discriminate].
+Qed.
+Print Assumptions C12_keys.
